@@ -29,19 +29,22 @@ TX_RE = re.compile(r"TX\[t=(\d+) c=(\d+) m=(\d+) k=(\S+) o=(\S+) p=(\S+?)( WRONG
 
 
 def canon(line):
-    """compare only what the property constrains: the diagnostic payload of an error reply the
-    library builds itself is free text; the listing of /.well-known/core is C20's subject"""
+    """Compare exactly what the property constrains.
+    * A case in which an application handler ran: everything (the handler's view of the request,
+      and "what it sets is what is sent": type, code, id, token, options, payload).
+    * A reply the library builds itself (error replies, the built-in /.well-known/core answer):
+      type, code, message id and token only.  Its options and payload are not the property's
+      business (diagnostic text, echoed options of a 4.02, the address in a 5.08, Content-Format /
+      ETag / Block2 and the listing of /.well-known/core: C20, C09) and other fixes to /repo may
+      legitimately change them.  Empty messages (code 0.00) must stay empty: compared in full."""
     if "H[" in line:
         return line
 
     def fix(m):
         t, c, mid, k, o, p, wd = m.groups()
-        c = int(c)
-        if c >= 128 or c == 66:
-            p = "*"
-        elif c == 69 and p == "-":
-            p = "WK"
-        return "TX[t=%s c=%d m=%s k=%s o=%s p=%s%s]" % (t, c, mid, k, o, p, wd or "")
+        if int(c) != 0:
+            o, p = "*", "*"
+        return "TX[t=%s c=%s m=%s k=%s o=%s p=%s%s]" % (t, c, mid, k, o, p, wd or "")
     return TX_RE.sub(fix, line)
 
 
@@ -143,11 +146,23 @@ def line_of(st):
 class Runner:
     def __init__(self, model, drv):
         self.model, self.drv = model, drv
+        # form T: the escape tables of coap_get_uri_path / coap_get_query are taken from the
+        # library on this run (C16 owns their content); the model is parametric in them
+        out, _ = vlib.run_lines_robust(drv, ["c10esc"])
+        self.esc = out[0].strip()
+        ref, _ = vlib.run_lines_robust(model, ["c10esc"])
+        self.esc_ref = ref[0].strip()
+        if not re.fullmatch(r"[0-9a-f]{64} [0-9a-f]{64}", self.esc):
+            raise vlib.BuildError("c10esc: unexpected answer of the C driver: " + self.esc[:100])
 
     def run(self, lines):
         """-> list of (serve, impl, allowed list) canonicalised"""
-        om, oc, crashes = tie.run_both(self.model, self.drv, lines)
-        oa, _ = vlib.run_lines_robust(self.model, ["c10a" + ln[3:] for ln in lines])
+        setl = "c10esc " + self.esc
+        om, _ = vlib.run_lines_robust(self.model, [setl] + lines)
+        om = om[1:]
+        oc, crashes = vlib.run_lines_robust(self.drv, lines)
+        oa, _ = vlib.run_lines_robust(self.model, [setl] + ["c10a" + ln[3:] for ln in lines])
+        oa = oa[1:]
         res = []
         for i in range(len(lines)):
             al = [canon(x) for x in oa[i].split(" || ")]
@@ -226,6 +241,28 @@ def main(run):
     model = vlib.build_model()
     drv = vlib.build_driver("h_dispatch", ["h_dispatch.c"], wraps=WRAPS)
     runner = Runner(model, drv)
+    run.cov["escape_tables_from_library"] = runner.esc
+    run.cov["escape_tables_equal_reference"] = runner.esc == runner.esc_ref
+    if getattr(run, "replay", None):
+        # re-run the case lines of a replay file and report them again
+        rl = []
+        for ln in open(run.replay):
+            ln = ln.strip()
+            for pre in ("shrunk case: ", "original case: ", "case: "):
+                if ln.startswith(pre):
+                    rl.append(ln[len(pre):])
+        rr, _ = runner.run(rl)
+        for ln, (mo, co, al) in zip(rl, rr):
+            v = verdict(mo, co, al)
+            vlib.log("replay %s: verdict=%s impl=%s allowed=%s" % (ln[:120], v, co[:200], " || ".join(al)[:300]))
+            run.count(ln, True)
+            if v == "R":
+                run.violation("server reaction is outside the relation of the property statement: impl=%s" % co[:200],
+                              "case: %s\nimpl: %s\nallowed: %s\n" % (ln, co, " || ".join(al)), tag="replay")
+            elif v == "F":
+                run.violation("server output differs from dp_serve: model=%s impl=%s" % (mo[:150], co[:150]),
+                              "case: %s\nmodel: %s\nimpl: %s\n" % (ln, mo, co), tag="replayf", no_input=True)
+        return
     r = tie.rng_for(run, "c10")
     corpus = list(vlib.read_corpus("C10"))
     nt, nq = (60, 400) if run.tier == "quick" else (1500, 600)
@@ -289,3 +326,26 @@ def main(run):
     run.cov["outside_relation"] = nR
     run.cov["differs_from_model"] = nF
     run.cov["corpus_cases"] = len(corpus)
+    if run.tier == "thorough":
+        # the same sweeps + a slice of the random cases under ASan+UBSan (library instrumented):
+        # the outputs must be the same and the driver must not trap
+        adrv = vlib.build_driver("h_dispatch", ["h_dispatch.c"], variant="asan", wraps=WRAPS)
+        sub = [i for i, s in enumerate(sts) if s is None or s["kind"] != "random"][:40000]
+        sub += [i for i, s in enumerate(sts) if s is not None and s["kind"] == "random"][:60000]
+        sl = [lines[i] for i in sub]
+        oa, acr = vlib.run_lines_robust(adrv, sl, timeout=1800,
+                                        env={"ASAN_OPTIONS": "detect_leaks=0:abort_on_error=1"})
+        run.cov["asan_cases"] = len(sl)
+        run.cov["asan_crashes"] = len(acr)
+        for idx, rc, err in acr[:2]:
+            run.violation("sanitizer trap in the server on a request datagram (rc=%d)" % rc,
+                          "case: %s\nstderr: %s\n" % (sl[idx], err), tag="asan%d" % idx)
+        nd = 0
+        for k, i in enumerate(sub):
+            if canon(oa[k]) != res[i][1] and not oa[k].startswith("CRASH"):
+                nd += 1
+                if nd <= 2:
+                    run.violation("sanitizer build answers differently: base=%s asan=%s" % (res[i][1][:120], oa[k][:120]),
+                                  "case: %s\nbase: %s\nasan: %s\n" % (lines[i], res[i][1], oa[k]),
+                                  tag="asandiff%d" % nd, no_input=True)
+        run.cov["asan_differences"] = nd
